@@ -53,7 +53,7 @@ RUN_ENV = {
 class Stage:
     def __init__(self, name, harness, repo=(), preset='asan', cc='gcc', nproc=1,
                  args=None, timeout=None, cflags=(), libs=(), pregen=None, tiers=('quick', 'thorough'),
-                 env=None, post=None, serial=False, needs_min=None):
+                 env=None, post=None, serial=False, needs_min=None, wrapper=None):
         self.name = name
         self.harness = list(harness)
         self.repo = list(repo)
@@ -70,6 +70,7 @@ class Stage:
         self.post = post              # callable(ctx, stage, results, builddir) -> extra violations/stats
         self.serial = serial          # run procs one after another (timing sensitive)
         self.needs_min = needs_min or {}  # stat name -> minimum (else inconclusive)
+        self.wrapper = wrapper        # e.g. ['valgrind', ...]; '{bdir}' and '{i}' are substituted
 
 
 class Ctx:
@@ -156,6 +157,8 @@ def run_stage(ctx, st, exe, extra_args=None, nproc_override=None):
                 os.unlink(p)
         cmd = [exe, '--seed', str(ctx.seed), '--tier', ctx.tier, '--proc', '%d/%d' % (i, nproc),
                '--out', out] + args + list(extra_args or [])
+        if st.wrapper:
+            cmd = [w.replace('{bdir}', bdir).replace('{i}', str(i)) for w in st.wrapper] + cmd
         logf = open(os.path.join(bdir, 'log%d.txt' % i), 'w')
         p = subprocess.Popen(cmd, stdout=logf, stderr=subprocess.STDOUT, env=env, cwd=bdir,
                              preexec_fn=os.setsid)
@@ -532,3 +535,29 @@ def tsan_post(ctx, st, res, bdir, problems):
                                                                              'tsan_distinct_reports': [len(reports), 0]},
                 'samples': [], 'violations': viols, 'violations_total': len(viols), 'exhaustive': False, 'note': '',
                 '_log': None, '_sig': None})
+
+
+def memcheck_post(ctx, st, res, bdir, problems):
+    """valgrind memcheck logs ({bdir}/memcheck.<i>): every distinct error kind + innermost librfn frame is a violation."""
+    reports = {}
+    nerr = 0
+    for path in sorted(glob.glob(os.path.join(bdir, 'memcheck.*'))):
+        text = open(path, errors='replace').read()
+        for block in re.split(r'\n==\d+== \n', text):
+            m = re.search(r'==\d+== (Conditional jump or move depends on uninitialised value|Use of uninitialised value[^\n]*|'
+                          r'Invalid (?:read|write)[^\n]*|Syscall param[^\n]*uninitialised[^\n]*)', block)
+            if not m:
+                continue
+            nerr += 1
+            fn = '(no librfn frame)'
+            for fm in re.finditer(r'(?:at|by) 0x[0-9A-Fa-f]+: (\S+) \((\S+?):(\d+)\)', block):
+                if fm.group(2) in ('wavheader.c', 'pack.c', 'string.c', 'util.c'):
+                    fn = '%s(%s)' % (fm.group(1), fm.group(2))
+                    break
+            key = 'memcheck:%s:%s' % (m.group(1).split('(')[0].strip().replace(' ', '-')[:60], fn)
+            reports.setdefault(key, block.strip()[:1500])
+    viols = [{'key': k, 'replay': ' '.join(tierval(st.args, ctx.tier) or []), 'detail': 'valgrind memcheck report:\n' + v}
+             for k, v in sorted(reports.items())]
+    res.append({'stage': st.name, 'proc': None, 'evaluations': 0,
+                'stats': {'memcheck_error_blocks': [nerr, 0]}, 'samples': [], 'violations': viols,
+                'violations_total': len(viols), 'exhaustive': False, 'note': '', '_log': None, '_sig': None})
